@@ -16,7 +16,11 @@ TECHNIQUE = ("explicit-state breadth-first search over mouse/key event histories
 LEVEL_TEXT = ("every event history up to the stated depth over the stated click grid is driven through the real dialog and compared with the "
               "list-of-pairs model after every event; in every state reached the dialog is closed and the pairs handed to extraction and the "
               "extracted modes are compared with the model; the dialog is opened with the default frequency band and with non-default bands "
-              "(clicks and poles outside the band) - the band variants over a smaller click alphabet")
+              "(clicks and poles outside the band) - the band variants over a smaller click alphabet; and on an algorithm object that ALREADY "
+              "HOLDS modes of an earlier extraction (a plain mpe() or an earlier interactive session that left poles selected) a second session "
+              "is enumerated in the same way over a small click alphabet, and what the algorithm holds after that second session (every field of "
+              "its result) and what was handed to extraction are compared with the same history on a fresh object (differential: the earlier "
+              "extraction must leave no trace, in particular when the second session ends with nothing selected)")
 RULE = ("a history is a sequence of events (press/release shift, click(button, x, y)) on a fresh dialog; non-trivial = at "
         "least two picks at different model orders (or lines) in non-ascending frequency order, or a deselection after "
         "two picks; distinct by (variant, event sequence)")
@@ -29,6 +33,12 @@ ASSUMPTIONS = [
     "retained poles / frequency lines outside on one or on both sides; the band only sets the initial view (the toolbar pans and zooms, so the abscissa of "
     "a click is not bound by it) and the model does not know it: nearest means nearest to the click. Clicks outside the band are delivered with their "
     "data coordinates like all other clicks (event.xdata set, the view itself is not moved)",
+    "whether the algorithm object already holds modes when the dialog is opened is a variant axis ('prior'): none (a fresh object, all variants above), "
+    "'mpe' (setup.mpe(name, ...) with designed frequencies stored two modes) or 'session' (an earlier dialog session on the same object closed with two "
+    "poles / lines selected, picked in descending frequency order at two model orders). The judged history is the SECOND session; besides the lock-step "
+    "and hand-over judgements it is judged differentially: every field of algorithm.result, the pairs handed to extraction and the exception type (if any) "
+    "must be the same as for the same history on a fresh object - no hand-written expectation for an empty final selection. The designed earlier "
+    "extraction is itself checked against the designed modes (ground truth) before the second session starts",
 ]
 
 # ---- designed tables --------------------------------------------------------------------------
@@ -49,17 +59,31 @@ FREQ = np.linspace(0, FS / 2, NF)
 # (0, 8.5) leaves the 9.0 / 9.1 Hz poles and the clicks at 9.04 / 9.3 outside on the upper side only;
 # (2.5, 9.2) leaves the clicks at 0.0 / 2.1 (and the frequency lines / poles below 2.5 Hz) outside below, and above the click at 9.3 and
 # the lines from 9.375 Hz on. On the singular-value plot every click outside a band has lines outside the band nearest to it.
+# 4th entry = prior: what the algorithm object already holds when the judged dialog session is opened: None = nothing (fresh object),
+# "mpe" = modes of a plain setup.mpe(...), "session" = modes of an earlier dialog session on the same object that left two entries selected
 VARIANTS = {
-    "SSI": ("SSI", 0, None),
-    "pLSCF": ("pLSCF", 0, None),
-    "FDD": ("FDD", 0, None),
-    "SSI-ordmin2": ("SSI", 2, None),
-    "SSI-band3-7": ("SSI", 0, (3.0, 7.0)),
-    "pLSCF-band0-8.5": ("pLSCF", 0, (0.0, 8.5)),
-    "FDD-band3-7": ("FDD", 0, (3.0, 7.0)),
-    "FDD-band2.5-9.2": ("FDD", 0, (2.5, 9.2)),
+    "SSI": ("SSI", 0, None, None),
+    "pLSCF": ("pLSCF", 0, None, None),
+    "FDD": ("FDD", 0, None, None),
+    "SSI-ordmin2": ("SSI", 2, None, None),
+    "SSI-band3-7": ("SSI", 0, (3.0, 7.0), None),
+    "pLSCF-band0-8.5": ("pLSCF", 0, (0.0, 8.5), None),
+    "FDD-band3-7": ("FDD", 0, (3.0, 7.0), None),
+    "FDD-band2.5-9.2": ("FDD", 0, (2.5, 9.2), None),
+    "SSI-after-mpe": ("SSI", 0, None, "mpe"),
+    "SSI-after-session": ("SSI", 0, None, "session"),
+    "pLSCF-after-mpe": ("pLSCF", 0, None, "mpe"),
+    "pLSCF-after-session": ("pLSCF", 0, None, "session"),
+    "FDD-after-mpe": ("FDD", 0, None, "mpe"),
+    "FDD-after-session": ("FDD", 0, None, "session"),
 }
 XB = [0.0] + XS      # click abscissae of the band variants
+# the designed earlier extractions of the 'prior' axis. mpe: two poles of model order 2 (in descending order) / the lines of two designed peaks;
+# session: shift, a pick near 5 Hz at model order 3, a pick near 2 Hz at model order 1 (descending frequency, two orders), shift released
+PRIOR_MPE = {"SSI": dict(sel_freq=[9.0, 5.1], order=2, rtol=1e-2), "pLSCF": dict(sel_freq=[9.0, 5.1], order=2, rtol=1e-2),
+             "FDD": dict(sel_freq=[5.0, 9.0625], DF=0.4)}
+PRIOR_MPE_MODES = {"SSI": [5.1, 9.0], "pLSCF": [5.1, 9.0], "FDD": [5.0, 9.0625]}
+PRIOR_SESSION = [("press",), ("click", 1, XS[1], YS[3]), ("click", 1, XS[0], YS[1]), ("release",)]
 
 
 def kind_of(variant):
@@ -68,6 +92,10 @@ def kind_of(variant):
 
 def band_of(variant):
     return VARIANTS[variant][2]
+
+
+def prior_of(variant):
+    return VARIANTS[variant][3]
 
 
 def outside(variant, x):
@@ -93,7 +121,16 @@ def fdd_tables():
 def events_for(variant, thorough):
     kind = kind_of(variant)
     ev = [("press",), ("release",)]
-    if band_of(variant) is not None:
+    if prior_of(variant) is not None:
+        # second session on a used object: a small alphabet that reaches every kind of final selection - nothing ever picked, clicks
+        # without the modifier, everything deselected again (by deselect-one and by deselect-nearest), one or several entries left
+        xs, ys = (XS, YS[1:]) if thorough else (XS[:3], YS[2:])
+        ev += [("click", 1, x, y) for x in xs for y in ys]
+        ev += [("click", 2, x, YS[1]) for x in ((XS[0], XS[3]) if not thorough else XS)]
+        ev += [("click", 3, XS[3], YS[0])]
+        if thorough:
+            ev += [("click", 1, XS[1], Y_EMPTY)]
+    elif band_of(variant) is not None:
         # band variants: a smaller alphabet whose abscissae XB lie on both sides of and inside the bands; picks at the two
         # model orders that hold poles at 2, 5 and 9 Hz, deselect-nearest at every abscissa, deselect-one inside and outside
         ys = YS if thorough else ((YS[2],) if kind == "FDD" else (YS[2], YS[3]))
@@ -285,7 +322,7 @@ def build(variant):
     from pyoma2.setup import SingleSetup
 
     ss = SingleSetup(np.zeros((16, 2)), FS)
-    kind, ordmin, _ = VARIANTS[variant]
+    kind, ordmin = VARIANTS[variant][:2]
     if kind == "SSI":
         # ordmin only limits which orders are labelled/charted as stable; the pole table still has a column per model order,
         # and a pick at order k means column k whatever ordmin is
@@ -312,6 +349,136 @@ def observe(o, variant):
 
 _SKIP = ("root", "fig", "ax2", "MARKER", "x_data_pole", "y_data_pole", "algo")
 _CFG = {}
+
+
+# ---- sessions on an algorithm object that already holds modes (the 'prior' axis) -------------------
+def open_dialog(ss, variant):
+    """One interactive session through setup.mpe_from_plot (the script in _HOOK plays the user); returns the exception or None."""
+    import matplotlib.pyplot as plt
+
+    err = None
+    _HOOK["obj"] = None
+    try:
+        band = band_of(variant) or (0, 10)
+        if kind_of(variant) == "FDD":
+            ss.mpe_from_plot("alg", freqlim=band, DF=0.4)
+        else:
+            ss.mpe_from_plot("alg", freqlim=band, rtol=1e-6)
+    except Exception as e:
+        err = e
+    plt.close("all")
+    try:
+        a_fig = _HOOK.get("obj")
+        if a_fig is not None:
+            a_fig.fig.clear()
+    except Exception:
+        pass
+    return err
+
+
+def plain_script(evs):
+    """A user who just clicks: handler exceptions are swallowed as a live session does."""
+    def script(o):
+        for ev in evs:
+            try:
+                fire(o, ev)
+            except Exception:
+                pass
+    return script
+
+
+def handed_selection(variant, handed):
+    """What extraction was handed, as a sorted list (pairs for the stabilisation chart, frequencies for the singular-value plot)."""
+    if handed is None:
+        return None
+    name, args, kw = handed
+    try:
+        if kind_of(variant) == "FDD":
+            sf = kw.get("sel_freq", args[3] if len(args) > 3 else None)
+            return sorted(float(f) for f in np.atleast_1d(sf))
+        return sorted(zip([float(f) for f in np.atleast_1d(args[0])], [int(x) for x in np.atleast_1d(args[4])]))
+    except Exception as e:
+        return f"unreadable ({type(e).__name__})"
+
+
+def held(a):
+    """Everything the algorithm's result object holds (tables and extracted modes)."""
+    return dict(a.result.__dict__)
+
+
+def _same(x, y):
+    if x is None or y is None:
+        return x is None and y is None
+    if isinstance(x, (list, tuple)) and isinstance(y, (list, tuple)) and len(x) == len(y) and any(isinstance(v, (list, tuple, np.ndarray)) for v in x):
+        return all(_same(u, v) for u, v in zip(x, y))
+    try:
+        ax, ay = np.asarray(x), np.asarray(y)
+        if ax.shape != ay.shape:
+            return False
+        if ax.dtype.kind in "fc" or ay.dtype.kind in "fc":
+            return bool(np.array_equal(ax, ay, equal_nan=True))
+        return bool(np.array_equal(ax, ay))
+    except Exception:
+        return canon.digest(x) == canon.digest(y)
+
+
+def differing_fields(hx, hy):
+    return sorted(k for k in set(hx) | set(hy) if not _same(hx.get(k), hy.get(k)))
+
+
+def _short(v):
+    if v is None:
+        return None
+    try:
+        arr = np.asarray(v)
+        return arr.tolist() if arr.size <= 8 else f"array{arr.shape}"
+    except Exception:
+        return str(v)[:60]
+
+
+def do_prior(ss, a, variant):
+    """The designed earlier extraction on the object. Returns (designed frequencies [ground truth: the designed tables], problem text or None)."""
+    kind, prior = kind_of(variant), prior_of(variant)
+    err = None
+    if prior == "mpe":
+        want = list(PRIOR_MPE_MODES[kind])
+        try:
+            ss.mpe("alg", **PRIOR_MPE[kind])
+        except Exception as e:
+            err = e
+    else:
+        m = Model(variant)
+        for ev in PRIOR_SESSION_OF(kind):
+            adm = m.step(ev)
+            m.sel = list(adm[0])
+        want = sorted(f for f, _ in m.sel)
+        _HOOK["script"] = plain_script(PRIOR_SESSION_OF(kind))
+        _HOOK["handed"] = None
+        err = open_dialog(ss, variant)
+    if err is not None:
+        return want, f"raised {type(err).__name__}: {err}"
+    try:
+        got = sorted(float(f) for f in np.atleast_1d(a.result.Fn))
+    except Exception as e:
+        return want, f"left unreadable Fn ({type(e).__name__})"
+    if len(got) != len(want) or any(abs(g - w) > 1e-9 for g, w in zip(got, want)):
+        return want, f"stored Fn={got}, designed modes are {want}"
+    return want, None
+
+
+def PRIOR_SESSION_OF(kind):
+    if kind != "FDD":
+        return PRIOR_SESSION
+    return [e if e[0] != "click" else ("click", e[1], e[2], -10.0 * e[3]) for e in PRIOR_SESSION]
+
+
+def reference_session(variant, evs):
+    """The same history on a FRESH object: (result fields held afterwards, what extraction was handed, exception type name or None)."""
+    ss, a = build(variant)
+    _HOOK["script"] = plain_script(evs)
+    _HOOK["handed"] = None
+    err = open_dialog(ss, variant)
+    return held(a), handed_selection(variant, _HOOK["handed"]), (None if err is None else type(err).__name__)
 
 
 def run_history(variant, events, hist, judge_all=False):
@@ -389,30 +556,60 @@ def run_history(variant, events, hist, judge_all=False):
                 out["stop"] = True
                 return
             m.sel = list(got)
+            out["peak"] = max(out.get("peak", 0), len(m.sel))
         d = {k: v for k, v in o.__dict__.items() if k not in _SKIP}
         out["key"] = canon.digest(d)
         out["final"] = list(m.sel)
 
+    ss, a = build(variant)
+    prior = prior_of(variant)
+    prior_modes = None
+    if prior is not None:
+        # the object already holds modes of an earlier extraction when the judged session is opened
+        prior_modes, problem = do_prior(ss, a, variant)
+        if problem is not None:
+            t.violation(f"earlier-extraction:{variant}", f"{variant}: the designed earlier extraction ({prior}) {problem}", case)
+            t.evaluations += 1
+            return t, None
+        t.outcomes[f"used-object:holds-modes-of-earlier-{prior}"] += 1
     _HOOK["script"] = script
     _HOOK["handed"] = None
-    ss, a = build(variant)
-    err = None
-    try:
-        band = band_of(variant) or (0, 10)
-        if kind_of(variant) == "FDD":
-            ss.mpe_from_plot("alg", freqlim=band, DF=0.4)
-        else:
-            ss.mpe_from_plot("alg", freqlim=band, rtol=1e-6)
-    except Exception as e:
-        err = e
-    plt.close("all")
-    try:
-        a_fig = _HOOK.get("obj")
-        if a_fig is not None:
-            a_fig.fig.clear()
-    except Exception:
-        pass
+    err = open_dialog(ss, variant)
     t.evaluations += 1
+    if prior is not None and "final" in out:
+        # differential judgement: what the algorithm holds after the session must not depend on what it held before
+        fin = sorted(out["final"])
+        raw_handed = _HOOK["handed"]
+        used_held, used_handed, used_err = held(a), handed_selection(variant, raw_handed), (None if err is None else type(err).__name__)
+        ref_held, ref_handed, ref_err = reference_session(variant, evs)
+        _HOOK["handed"] = raw_handed      # the hand-over judgement below looks at the session on the used object
+        which = "empty-selection" if not fin else "nonempty-selection"
+        diff = differing_fields(used_held, ref_held)
+        bad = False
+        if used_err != ref_err:
+            bad = True
+            t.violation(f"used-object-raises:{variant}:{which}",
+                        f"{variant}: on an object holding modes {prior_modes} of an earlier {prior}, the session {label(len(evs) - 1)} closed with selection {fin} "
+                        f"ended with {used_err}; on a fresh object with {ref_err}", case)
+        if diff:
+            bad = True
+            show = {k: (_short(used_held.get(k)), _short(ref_held.get(k))) for k in diff[:4]}
+            t.violation(f"held-after-session:{variant}:{which}",
+                        f"{variant}: the algorithm object held modes {prior_modes} of an earlier {prior}; after a session {label(len(evs) - 1)} closed with selection {fin} "
+                        f"its result differs from what a fresh object holds after the same session in {diff}: (used, fresh) = {show}", case)
+        if used_handed != ref_handed:
+            bad = True
+            t.violation(f"handover-on-used-object:{variant}:{which}",
+                        f"{variant}: with selection {fin} extraction was handed {used_handed} on an object holding modes of an earlier {prior}, {ref_handed} on a fresh object "
+                        f"(history {label(len(evs) - 1)})", case)
+        if not bad:
+            t.outcomes["used-object:held-and-handed-same-as-fresh"] += 1
+            t.outcomes[f"used-object:session-ends-with-{which}"] += 1
+            if not fin and out.get("peak", 0) >= 1:
+                t.outcomes["used-object:everything-deselected-again"] += 1
+            if not fin and out.get("peak", 0) >= 2:
+                t.outcomes["used-object:several-picked-everything-deselected-again"] += 1
+        t.validated += 1
     # hand-over (judged at every state reached: closing the dialog is possible in every state)
     if "final" in out:
         fin = sorted(out["final"])
@@ -469,18 +666,27 @@ def plan_for(thorough):
     """(variant, depth of the merged BFS, depth of the un-merged pass). Depth 4 is the shortest history in which deselect-nearest
     has two selected entries to choose from (press, pick, pick, deselect). The quick tier has one band variant per click handler,
     with different bands: the stabilisation chart at depth 4, the singular-value plot at depth 3 (deselect-nearest with one entry);
-    the thorough tier has all four band variants, deeper and over the larger band alphabet."""
+    the thorough tier has all four band variants, deeper and over the larger band alphabet.
+    Used-object variants (second session on an algorithm object that already holds modes): depth 3 is the shortest history that ends with
+    everything deselected again (press, pick, deselect); the quick tier has both kinds of earlier extraction for the stabilisation chart of
+    SSI, and one each for pLSCF and the singular-value plot (each algorithm family has its own mpe_from_plot); the thorough tier has all six
+    at depth 4 (two picks, then both deselected one by one needs 5 and is not reached; two picks and one deselection is)."""
     if not thorough:
         return [("SSI", 4, 2), ("pLSCF", 3, 2), ("FDD", 4, 2), ("SSI-ordmin2", 3, 1),
-                ("SSI-band3-7", 4, 1), ("FDD-band2.5-9.2", 3, 1)]
+                ("SSI-band3-7", 4, 1), ("FDD-band2.5-9.2", 3, 1),
+                ("SSI-after-mpe", 3, 0), ("SSI-after-session", 3, 0), ("pLSCF-after-session", 3, 0), ("FDD-after-mpe", 3, 0)]
     return [("SSI", 5, 3), ("pLSCF", 5, 3), ("FDD", 5, 3), ("SSI-ordmin2", 4, 2),
-            ("SSI-band3-7", 5, 2), ("pLSCF-band0-8.5", 4, 2), ("FDD-band3-7", 4, 2), ("FDD-band2.5-9.2", 5, 2)]
+            ("SSI-band3-7", 5, 2), ("pLSCF-band0-8.5", 4, 2), ("FDD-band3-7", 4, 2), ("FDD-band2.5-9.2", 5, 2),
+            ("SSI-after-mpe", 4, 1), ("SSI-after-session", 4, 1), ("pLSCF-after-mpe", 4, 1), ("pLSCF-after-session", 4, 1),
+            ("FDD-after-mpe", 4, 1), ("FDD-after-session", 4, 1)]
 
 
 def explore(ctx):
     plan = plan_for(ctx.thorough)
-    ctx.bounds = {"tables": {"Fn_poles": FN, "freq_lines_FDD": NF}, "click_x": XS, "click_y": YS, "click_x_band_variants": XB, "variants": [
-        {"variant": v, "dialog": kind_of(v), "freqlim": band_of(v) or "default (0, fs/2)", "events": [list(e) for e in events_for(v, ctx.thorough)], "merged_bfs_depth": d, "unmerged_depth": u} for v, d, u in plan]}
+    ctx.bounds = {"tables": {"Fn_poles": FN, "freq_lines_FDD": NF}, "click_x": XS, "click_y": YS, "click_x_band_variants": XB,
+                  "prior_axis": {"mpe": PRIOR_MPE, "session": [list(e) for e in PRIOR_SESSION], "judged": "second session; result fields, hand-over and exception type against the same history on a fresh object"},
+                  "variants": [
+        {"variant": v, "dialog": kind_of(v), "freqlim": band_of(v) or "default (0, fs/2)", "algorithm_object_already_holds": prior_of(v) or "nothing (fresh)", "events": [list(e) for e in events_for(v, ctx.thorough)], "merged_bfs_depth": d, "unmerged_depth": u} for v, d, u in plan]}
     for variant, depth, ud in plan:
         events = events_for(variant, ctx.thorough)
         _CFG.update(variant=variant, events=events)
@@ -493,7 +699,9 @@ def explore(ctx):
             ctx.tally.violation(f"hidden-state:{variant}", f"histories {h0} and {h1} reach the same dialog state but differ after events {evs}",
                                 {"variant": variant, "events": [events[i] for i in h1], "other": [events[i] for i in h0]})
     ctx.require("pick", "pick-on-empty-order", "deselect-one", "deselect-nearest", "click-without-modifier", "handover-ok", "extracted-ok",
-                "pick-outside-band", "pick-of-pole-outside-band", "deselect-nearest-outside-band", "deselect-nearest-outside-band-among-several")
+                "pick-outside-band", "pick-of-pole-outside-band", "deselect-nearest-outside-band", "deselect-nearest-outside-band-among-several",
+                "used-object:holds-modes-of-earlier-mpe", "used-object:holds-modes-of-earlier-session", "used-object:held-and-handed-same-as-fresh",
+                "used-object:session-ends-with-empty-selection", "used-object:session-ends-with-nonempty-selection", "used-object:everything-deselected-again")
 
 
 def replay(case):
